@@ -1,7 +1,7 @@
 (* Props/C02.v — multilinear products equal their definition in every representation.
    Only statements, `exact`, Print Assumptions. Specs: Model/C02Spec.v; models: Model/C02*.v; proofs: Proofs/C02*.v *)
 From Coq Require Import List Arith Bool ZArith Ring.
-From PV Require Import Base.Index Base.Perm Base.Sum Np.NpZ Np.Array Model.Sparse Model.Repr Gen.GenUtils Gen.GenUtils2 Model.C02TenmatReq Proofs.C02TenmatReqProofs
+From PV Require Import Base.Index Base.Perm Base.Sum Np.NpZ Np.Array Model.Sparse Model.Repr Gen.GenUtils Gen.GenUtils2 Model.C02TenmatReq Proofs.C02TenmatReqProofs Model.C02DimsReq Proofs.C02DimsReqProofs Proofs.C02SpTtmListProofs Proofs.UtilsProofs
                        Model.C02Spec Model.C02Dense Model.C02Sparse Model.C02Modes Model.C02Kruskal Model.C02SpKernels Model.C02Absorb Model.C02Tenmat Model.C02SpMore Model.C02KruskalMore Model.C02Tucker Model.C02TuckerFull
                        Proofs.C02DenseProofs Proofs.C02SparseProofs Proofs.C02ModesProofs Proofs.C02MttkrpProofs
                        Proofs.C02KruskalProofs Proofs.C02SpKernelsProofs Proofs.C02AbsorbProofs Proofs.C02TenmatProofs Proofs.C02PermProofs Proofs.C02IndicatorProofs Proofs.C02SpMoreProofs Proofs.C02KruskalMoreProofs Proofs.C02TuckerProofs Proofs.C02TuckerTtvProofs Proofs.C02TuckerMttkrpProofs Proofs.C02TuckerFullProofs Proofs.C02KruskalAnyProofs.
@@ -452,6 +452,30 @@ Theorem C02_to_tenmat_req_rows_all : forall (X : dense V),
   Ok (impl_to_tenmat v0 X (seq 0 (length (dshape X))) (compl (length (dshape X)) (seq 0 (length (dshape X)))),
       (seq 0 (length (dshape X)), compl (length (dshape X)) (seq 0 (length (dshape X))))).
 Proof. exact (impl_to_tenmat_req_rows_all V v0). Qed.
+(* tensor.collapse / tensor.scale as called: the GENERATED tt_dimscheck sorts the listed modes (all modes, ascending, when dims is None) *)
+Theorem C02_collapse_dense_req : forall (red : list V -> V) (X : dense V) (d : vec),
+  dims_ok (Z.of_nat (length (dshape X))) None d ->
+  impl_collapse_req v0 red X (Some d) = Ok (impl_collapse_dense v0 red X (nats (np_sort d))).
+Proof. exact (impl_collapse_req_dims V v0). Qed.
+
+Theorem C02_collapse_dense_req_all : forall (red : list V -> V) (X : dense V),
+  impl_collapse_req v0 red X None = Ok (impl_collapse_dense v0 red X (seq 0 (length (dshape X)))).
+Proof. exact (impl_collapse_req_all V v0). Qed.
+
+Theorem C02_scale_dense_req : forall (X F : dense V) (d : vec),
+  dims_ok (Z.of_nat (length (dshape X))) None d ->
+  impl_scale_req v0 vmul X d F = Ok (impl_scale_dense v0 vmul X (nats (np_sort d)) F).
+Proof. exact (impl_scale_req_dims V v0 vmul). Qed.
+
+(* sptensor.ttm, list form: the first sorted mode on the coordinate list (its result is dense), the others with tensor.ttm *)
+Theorem C02_ttm_sparse_list : forall (S : sparse V) n J U r tr, wf_sp isz S ->
+  Forall (fun p => fst p < length (sshape S)) ((n, (J, U)) :: r) ->
+  let nUs := (n, (J, U)) :: r in
+  let Y := impl_ttm_sp_list V v0 vadd vmul S nUs tr in
+  dshape Y = ttm_list_shape (sshape S) nUs /\ wf_dense Y /\
+  forall i, inb (ttm_list_shape (sshape S) nUs) i = true ->
+    den_dense v0 Y i = spec_ttm_list v0 vadd vmul (den_sp v0 S) (sshape S) nUs tr i.
+Proof. exact (impl_ttm_sp_list_correct V v0 v1 vadd vmul vsub vopp Vring isz). Qed.
 End C02.
 
 Print Assumptions C02_ttv_dense.
@@ -512,6 +536,10 @@ Print Assumptions C02_innerprod_kruskal_any.
 Print Assumptions C02_ttt_dense_req.
 Print Assumptions C02_to_tenmat_req_both.
 Print Assumptions C02_to_tenmat_req_rows_all.
+Print Assumptions C02_collapse_dense_req.
+Print Assumptions C02_collapse_dense_req_all.
+Print Assumptions C02_scale_dense_req.
+Print Assumptions C02_ttm_sparse_list.
 
 (* non-vacuity: concrete non-symmetric instances over Z *)
 Local Open Scope Z_scope.
@@ -622,4 +650,9 @@ Example C02_ex_innerprod_tt : impl_innerprod_tt 0 Z.add Z.mul (mkT (mkDense [1; 
 Proof. reflexivity. Qed.
 Example C02_ex_ttt_req : impl_ttt_req 0 Z.add Z.mul (mkDense [2; 3]%nat [1; 2; 3; 4; 5; 6]) (mkDense [3; 2]%nat [1; 0; 2; 0; 1; -1]) [1] [0]
                          = Ok (mkDense [2; 2]%nat [11; 14; -2; -2]).
+Proof. reflexivity. Qed.
+Example C02_ex_collapse_req : impl_collapse_req 0 (sumv 0 Z.add) (mkDense [2; 3]%nat [1; 2; 3; 4; 5; 6]) (Some [0]) = Ok (mkDense [3%nat] [3; 7; 11]).
+Proof. reflexivity. Qed.
+Example C02_ex_ttm_sp_list : impl_ttm_sp_list Z 0 Z.add Z.mul (mkSp [2; 3]%nat [[1; 2]; [0; 1]; [1; 0]]%nat [5; 7; 2])
+                               [(0%nat, (1%nat, [[1; -1]])); (1%nat, (2%nat, [[1; 0; 2]; [0; 1; 0]]))] false = mkDense [1; 2]%nat [-12; 7].
 Proof. reflexivity. Qed.
